@@ -72,3 +72,86 @@ Qed.
 (* a datagram is never delivered in the instant it was sent: the two loops do not interact within one instant *)
 Theorem latency_positive t lat from to_ other sd : t < dg_at (as_dgram t lat from to_ other sd).
 Proof. cbn. lia. Qed.
+
+(* ------------------------------------------------------------------ the ownership invariant of both stacks in every state of the composition *)
+From PS Require Import Proofs.WorldInv.
+
+Lemma G_settle : forall fuel arr rv w, G w -> G (fst (settle fuel arr rv w)).
+Proof.
+  induction fuel as [|f IH]; intros arr rv w Hg; cbn [settle fst]; [exact Hg|].
+  destruct (ready w) as [|x r] eqn:Er; [destruct arr as [|a ar]; [destruct (due_now w)|]|];
+    try (apply IH; apply G_iteration; exact Hg). exact Hg.
+Qed.
+
+Lemma G_fresh_world t nd : fresh_insts (nd_insts nd) -> G (fresh_world t nd).
+Proof. intros H. unfold fresh_world. apply G_empty. exact H. Qed.
+
+Definition okw (w : option world) : Prop := forall x, w = Some x -> G x.
+
+Lemma G_node_step t b nd fuel rv ctls arrived w tr : fresh_insts (nd_insts nd) -> okw w ->
+  okw (fst (fst (fst (node_step t b nd fuel rv ctls arrived w tr)))).
+Proof.
+  intros Hf Hw. unfold node_step.
+  set (acc0 := (w, tr, @nil handle)).
+  assert (Hfold : forall l acc, okw (fst (fst acc)) ->
+            okw (fst (fst (fold_left (fun acc c => let '(w0, tr0, ap) := acc in
+                     match c with
+                     | CCrash => (None, match w0 with Some x => out x ++ tr0 | None => tr0 end, [])
+                     | CRestart => match w0 with Some _ => (w0, tr0, ap) | None => (Some (fresh_world t nd), tr0, map HApi (nd_init nd)) end
+                     | CApi a => (w0, tr0, ap ++ [HApi a])
+                     end) l acc)))).
+  { induction l as [|c l IH]; intros [[w0 tr0] ap] Ha; cbn [fold_left]; [exact Ha|]. apply IH. cbn [fst] in Ha.
+    destruct c as [a| |]; cbn [fst]; [exact Ha|intros x Hx; discriminate|].
+    destruct w0; cbn [fst]; [exact Ha|]. intros x Hx. injection Hx as <-. apply G_fresh_world, Hf. }
+  specialize (Hfold ctls acc0 Hw).
+  destruct (fold_left _ ctls acc0) as [[w1 tr1] apis]. cbn [fst] in Hfold.
+  destruct w1 as [x|]; [|cbn [fst]; intros y Hy; discriminate].
+  assert (Hx0 : G (set_now (N.max t (now x)) x)) by (eapply same_G; [apply n_set_now|apply Hfold; reflexivity]).
+  set (hs := apis ++ _). clearbody hs.
+  assert (Hset : forall l, okw (fst (fst (fst (let '(x1, ok) := settle fuel l rv (set_now (N.max t (now x)) x) in
+                                               (Some x1, tr1, new_sends (out (set_now (N.max t (now x)) x)) (out x1), ok)))))).
+  { intros l. pose proof (G_settle fuel l rv _ Hx0) as Hq. destruct (settle fuel l rv (set_now (N.max t (now x)) x)) as [x1 ok].
+    cbn [fst] in *. intros y Hy. injection Hy as <-. exact Hq. }
+  destruct hs as [|h0 hs']; [destruct (ready (set_now (N.max t (now x)) x)); [destruct (due_now (set_now (N.max t (now x)) x))|]|];
+    try apply Hset.
+  cbn [fst]. intros y Hy. injection Hy as <-. exact Hx0.
+Qed.
+
+Definition sys_ok (s : sys) : Prop := okw (sy_a s) /\ okw (sy_b s).
+
+Lemma enqueue_worlds t lat fe from to_ other : forall sends s,
+  sy_a (enqueue t lat fe from to_ sends other s) = sy_a s /\ sy_b (enqueue t lat fe from to_ sends other s) = sy_b s.
+Proof.
+  induction sends as [|[d data] sends IH]; intros s; [split; reflexivity|]. rewrite enqueue_cons.
+  match goal with |- context [enqueue _ _ _ _ _ sends _ ?s1] => destruct (IH s1) as [-> ->] end.
+  destruct (t <? fe); [destruct (sy_dec s)|]; split; reflexivity.
+Qed.
+
+(* both stacks satisfy the ownership invariant in every state of every run of the composition: after any sequence of
+   stop / start / crash / restart and any loss, duplication or reordering of datagrams *)
+Theorem sys_run_ok sc : fresh_insts (nd_insts (ss_a sc)) -> fresh_insts (nd_insts (ss_b sc)) ->
+  forall fuel evs s, sys_ok s -> sys_ok (fst (sys_run fuel sc evs s)).
+Proof.
+  intros Ha Hb. induction fuel as [|f IH]; intros evs s Hs; cbn [sys_run fst]; [exact Hs|].
+  destruct (next_instant sc evs s) as [t0|]; [|exact Hs].
+  destruct (ss_end sc <? N.max t0 (sy_now s)); [exact Hs|]. cbv zeta.
+  destruct Hs as [Hsa Hsb].
+  match goal with |- context [node_step ?t false ?nd ?fu ?rv ?c ?ar (sy_a s) ?tr] =>
+    pose proof (G_node_step t false nd fu rv c ar (sy_a s) tr Ha Hsa) as Ka;
+    destruct (node_step t false nd fu rv c ar (sy_a s) tr) as [[[wa tra] sa] oka] end.
+  match goal with |- context [node_step ?t true ?nd ?fu ?rv ?c ?ar (sy_b s) ?tr] =>
+    pose proof (G_node_step t true nd fu rv c ar (sy_b s) tr Hb Hsb) as Kb;
+    destruct (node_step t true nd fu rv c ar (sy_b s) tr) as [[[wb trb] sb] okb] end.
+  cbn [fst] in Ka, Kb. apply IH. unfold sys_ok.
+  match goal with |- okw (sy_a (enqueue ?t ?l ?fe ?fr ?to ?sd ?ot ?s2)) /\ _ =>
+    destruct (enqueue_worlds t l fe fr to ot sd s2) as [-> ->] end.
+  match goal with |- okw (sy_a (enqueue ?t ?l ?fe ?fr ?to ?sd ?ot ?s2)) /\ _ =>
+    destruct (enqueue_worlds t l fe fr to ot sd s2) as [-> ->] end.
+  cbn [sy_a sy_b]. split; assumption.
+Qed.
+
+Theorem sys_reachable_ok sc : fresh_insts (nd_insts (ss_a sc)) -> fresh_insts (nd_insts (ss_b sc)) ->
+  sys_ok (fst (sys_run_scenario sc)).
+Proof.
+  intros Ha Hb. unfold sys_run_scenario. apply sys_run_ok; [exact Ha|exact Hb|]. split; intros x Hx; discriminate.
+Qed.
